@@ -2020,6 +2020,53 @@ def _legacy_fallback(cls, cfg, nid, attr):
     return False
 
 
+def rule_P7n(ctx, rid='P7'):
+    """Optional members: an attribute that some method of a bound class sets to None (a union
+    without cube, a bound without phase shift, a neural bound without emulator, a mixture without
+    cube or ellipsoid part) is dereferenced only where a test of that very attribute against
+    None guards the use."""
+    ctx.rule(rid + 'n', 'optional members are dereferenced only under their own not-None test')
+    prog = ctx.program
+    n = 0
+    for c, w, r, u, obj in persist_classes(prog):
+        nullable = set()
+        for m in c.methods.values():
+            for st in walk_no_nested(m.node):
+                if isinstance(st, ast.Assign) and isinstance(st.value, ast.Constant) and \
+                        st.value.value is None:
+                    for t in st.targets:
+                        if isinstance(t, ast.Attribute) and isinstance(t.value, ast.Name):
+                            nullable.add(t.attr)
+        for m in sorted(c.methods.values(), key=lambda m_: m_.qualname):
+            if not m.self_name:
+                continue
+            cfg = cfg_of(m)
+            for x in walk_no_nested(m.node):
+                if not (isinstance(x, ast.Attribute) and isinstance(x.value, ast.Attribute) and
+                        isinstance(x.value.value, ast.Name) and x.value.value.id == m.self_name
+                        and x.value.attr in nullable and cfg.has(x)):
+                    continue
+                nid = cfg.node_of(x).id
+                a = '%s.%s' % (m.self_name, x.value.attr)
+                ok = cfg.has_fact(nid, a + ' is not None', True) or \
+                    cfg.has_fact(nid, a + ' is None', False)
+                if not ok:
+                    # a dominating non-None assignment in the same function also guards it
+                    asg = {cfg.node_of(st).id for st in walk_no_nested(m.node)
+                           if isinstance(st, ast.Assign) and cfg.has(st) and
+                           any(dotted(t) == a for t in st.targets) and
+                           not (isinstance(st.value, ast.Constant) and st.value.value is None)}
+                    ok = any(cfg.dominates(g, nid) for g in asg)
+                n += 1
+                ctx.ob(rid + 'n', '%s:%s-used-under-its-guard' % (m.qualname, x.value.attr), ok,
+                       m.where(x),
+                       'the optional member is used only where it is known to be present' if ok
+                       else '`%s` is evaluated although %s can be None (the class sets it to '
+                       'None for bounds built without that part): AttributeError for such a bound'
+                       % (unparse(x)[:50], a))
+    return n
+
+
 def rule_P10(ctx, cls, reader, obj, rid='P10'):
     ctx.rule(rid, 'restored, not re-derived: an attribute that the observation interface reads '
              'and that some non-constructor method modifies is restored from the file (or from '
